@@ -130,11 +130,12 @@ const LayoutVariants = 3
 
 // Features of the "odd" spelling; OddMask can switch them off one at a time to attribute a failure.
 const (
-	OddGoCodeTwo        = 1 << iota // two statements on one line inside {{ }}
-	OddCondOneLine                  // conditional attribute written on one line
-	OddExprComment                  // string expression followed by a block comment inside the braces: { e /* c */ }
-	OddCallBlockOneLine             // component call with a child block written on one line: @wrap() { <b>x</b> }
-	OddAll              = OddGoCodeTwo | OddCondOneLine | OddExprComment | OddCallBlockOneLine
+	OddGoCodeTwo          = 1 << iota // two statements on one line inside {{ }}
+	OddCondOneLine                    // conditional attribute written on one line
+	OddExprComment                    // string expression followed by a block comment inside the braces: { e /* c */ }
+	OddCallBlockOneLine               // component call with a child block written on one line: @wrap() { <b>x</b> }
+	OddCommentBeforeTempl             // file level: a Go block ending in an INDENTED // comment directly in front of `templ`
+	OddAll                = OddGoCodeTwo | OddCondOneLine | OddExprComment | OddCallBlockOneLine | OddCommentBeforeTempl
 )
 
 type printer struct {
@@ -552,5 +553,15 @@ func Header(pkg string) string {
 
 // Template prints one template declaration.
 func Template(name string, prog []Node, v Variant) string {
-	return "templ " + name + "(env *Env) {" + TemplateBody(prog, v) + "}\n"
+	return TemplateOdd(name, prog, v, OddAll)
+}
+
+// TemplateOdd is Template with an explicit feature mask for the odd spelling. The file-level feature writes a Go
+// declaration whose trailing comment line is indented directly in front of the template.
+func TemplateOdd(name string, prog []Node, v Variant, odd int) string {
+	pre := ""
+	if v == 3 && odd&OddCommentBeforeTempl != 0 {
+		pre = "var " + name + "Note = 1\n\n\t// note about " + name + "\n"
+	}
+	return pre + "templ " + name + "(env *Env) {" + TemplateBodyOdd(prog, v, odd) + "}\n"
 }
